@@ -60,14 +60,10 @@ func round(s *slip.Scope, f slip.Object, args slip.List, depth int) slip.Values 
 		slip.TypePanic(s, depth, "number", num, "real")
 	}
 	var (
-		div slip.Object = slip.Fixnum(1)
-		q   slip.Object
-		r   slip.Object
+		q slip.Object
+		r slip.Object
 	)
-	if 1 < len(args) {
-		div = args[1]
-	}
-	num, div = slip.NormalizeNumber(num, div)
+	num, div := normalizeDivision(s, depth, f, args)
 
 	switch tn := num.(type) {
 	case slip.Fixnum:
